@@ -523,12 +523,19 @@ def run_case(case, rep, ctx):
     # ---- execution under scripted RNG (measurements / measured parameters / symbols) -------------------
     elif how == "optimize" and not any(c["op"] in PHASE_GATES or c["op"] in ("Fock", "MSgate") for c in spec["cmds"]):
         st = []
+        mag = [1.0]
         for which, p in (("source", prog), ("optimized", opt)):
             eng = ctx.sf.Engine("gaussian")
             occ = {}
             cur = [None]
 
             def pre(op, reg, backend, kwargs):
+                # running magnitude of the simulator state: rounding errors of the two executions are amplified by
+                # (largest covariance entry)^2 when a strongly squeezed state is conditioned on a measurement
+                circ = getattr(backend, "circuit", None)
+                if circ is not None and hasattr(circ, "nmat"):
+                    mag[0] = max(mag[0], float(np.max(np.abs(circ.nmat))), float(np.max(np.abs(circ.mmat))),
+                                 float(np.max(np.abs(circ.mean))) ** 2)
                 # outcomes are scripted per (measured mode, occurrence), so that a legal reordering of
                 # independent measurements does not change which outcome a measurement receives
                 if isinstance(op, ctx.ops.Measurement):
@@ -563,8 +570,11 @@ def run_case(case, rep, ctx):
         else:
             rep.monitor("optimize:execution")
             err = max(np.max(np.abs(st[0][0] - st[1][0])), np.max(np.abs(st[0][1] - st[1][1])))
-            rep.dev("optimize.execution", err, 1e-8)
-            if err > 1e-8 * (1 + np.max(np.abs(st[0][1]))):
+            tol = 1e-8 * (1 + np.max(np.abs(st[0][1]))) + 1e-12 * mag[0] ** 2
+            rep.dev("optimize.execution/tolerance", err / tol, 1.0)
+            if mag[0] > 1e3:
+                rep.observe("execution.ill-conditioned(|V|>1e3)")
+            if err > tol:
                 rep.violation("optimize_circuit", "executed-state-changed", "final state of the optimized program "
                               "differs from the source's by %.3e under identical scripted outcomes" % err, spec)
 
